@@ -91,10 +91,24 @@ def run(chk):
                     batch.add(ev, {'cls': name, 'N': N, 'nfft': nfft, 'kind': kind, 'seed': chk.seed, 'scaled': scaled, 'sampling': samp})
     # long records (past 512 / 1024 / 2048 samples: any switch to a fast path) for the model-based classes: the two
     # clauses that relate two different runs of the estimator (real vs complex-declared, time reversal)
-    for N, nfft in ((600, 600), (2048, 2048)) if quick else ((600, 600), (1030, 1031), (2048, 2048), (4100, 4100)):
+    # (4200 samples / NFFT 4201: past 4096 - the library's default NFFT - as well; there the frequency-shift clause too)
+    for N, nfft in ((600, 600), (2048, 2048), (4200, 4201)) if quick else ((600, 600), (1030, 1031), (2048, 2048), (4100, 4100), (4200, 4201), (8300, 8400)):
         xr = zoo.signal(rng, N, False, 'arma')
         xc = zoo.signal(rng, N, True, 'arma')
-        for name in ('pyule', 'pburg', 'pma', 'parma', 'pminvar', 'pmodcovar', 'pcovar'):
+        for name in ('pyule', 'pburg', 'pma', 'parma', 'pminvar', 'pmodcovar', 'pcovar', 'pcorrelogram'):
+            if N > 4096:
+                ok0, base = call_guard(psd_of, name, xc.copy(), nfft, over)
+                sc = float(np.max(np.abs(base))) if ok0 and len(base) else 1.0
+                for m in (1, nfft // 3):
+                    ok, p = call_guard(psd_of, name, xc * np.exp(2j * np.pi * m * np.arange(N) / nfft), nfft, over)
+                    ev = {'ev': 'shift', 'cls': name, 'nfft': nfft, 'N': N, 'm': int(m), 'raised': not (ok and ok0), 'flat': False}
+                    if ok and ok0 and p.shape == base.shape:
+                        ev['dev'] = obs.q(np.max(np.abs(p - np.roll(base, m))) / sc)
+                        ev['best'] = int(m) if ev['dev'] < obs.QCAP else int(np.argmin([np.max(np.abs(p - np.roll(base, s))) for s in range(len(base))]))
+                    else:
+                        ev['dev'] = obs.QCAP if (ok and ok0) else 0
+                        ev['best'] = -1
+                    batch.add(ev, {'cls': name, 'N': N, 'nfft': nfft, 'm': int(m), 'kind': 'arma', 'seed': chk.seed})
             oko, one = call_guard(psd_of, name, xr.copy(), nfft, over)
             okt, two = call_guard(psd_of, name, xr.astype(complex), nfft, over)
             ev = {'ev': 'onesided', 'cls': name, 'nfft': nfft, 'N': N, 'raised': not (oko and okt), 'scaled': False}
